@@ -89,6 +89,13 @@ thread_local! {
 /// disagreements of the convenience accessors noticed by `read_tree_soft` since the last call:
 /// they say something about an accessor, not about the tree, so the walk goes on and the
 /// simulation step is not abandoned because of them
+pub fn push_soft(v: Violation) {
+    SOFT.with(|s| {
+        if s.borrow().len() < 4 {
+            s.borrow_mut().push(v);
+        }
+    });
+}
 pub fn take_soft() -> Vec<Violation> {
     SOFT.with(|s| std::mem::take(&mut *s.borrow_mut()))
 }
